@@ -216,6 +216,7 @@ func runC13(c *Ctx) {
 			}
 		}
 		hasRangeAnswer, hasDrain := false, false
+		exitChecked, otherExit := false, ""
 		if sel == nil {
 			R.Fatal("connection.write has no select case on the stop channel (anchor)")
 		} else {
@@ -295,6 +296,23 @@ func runC13(c *Ctx) {
 				}
 				hasRangeAnswer = mapRange && replySend
 				hasDrain = drainRecv && replySend
+				// every way out of the writer's loop goes through the stop arm
+				seenB := map[*ssa.BasicBlock]bool{caseBlock: true}
+				var esc func(x *ssa.BasicBlock)
+				esc = func(x *ssa.BasicBlock) {
+					if seenB[x] {
+						return
+					}
+					seenB[x] = true
+					if ret, isR := x.Instrs[len(x.Instrs)-1].(*ssa.Return); isR {
+						otherExit = c.P.RelPos(ret.Pos())
+					}
+					for _, su := range x.Succs {
+						esc(su)
+					}
+				}
+				esc(sel.Block())
+				exitChecked = true
 			}
 		}
 		st, d := report.Discharged, ""
@@ -307,6 +325,13 @@ func runC13(c *Ctx) {
 			st, d = report.Violated, "commands already queued in the per-connection command channel when the writer stops are never taken out and answered: their callers wait forever"
 		}
 		R.Add("E5.exit", "connection.write / queued commands are drained and answered when the writer stops", c.P.RelPos(writeFn.Pos()), st, d)
+		if exitChecked {
+			st, d = report.Discharged, ""
+			if otherExit != "" {
+				st, d = report.Violated, "the writer can return at "+otherExit+" without passing through the stop arm (the only place that answers outstanding and queued commands): when several of its channels are ready at teardown the select may pick this arm, and the callers of SendActiveMessage wait forever"
+			}
+			R.Add("E5.exit", "connection.write / the stop arm is the only way out of the writer's loop", c.P.RelPos(writeFn.Pos()), st, d)
+		}
 	}
 	{
 		R.Rules["S.complete"] = "every delivery to the reply channel of a recorded request is followed by deleting the record: a stale record is answered again when the writer stops, on a channel its caller has already closed (send on closed channel takes the process down)"
@@ -319,7 +344,7 @@ func runC13(c *Ctx) {
 	}
 	c.timeoutRule()
 	R.Require("E5.close", 3, "")
-	R.Require("E5.exit", 2, "")
+	R.Require("E5.exit", 3, "")
 	R.Require("E5.leave", 1, "")
 	R.Require("E5.stop-order", 2, "")
 	// ---- the roles themselves do not panic: reader and writer of a connection, interpreted from the state the
